@@ -17,6 +17,9 @@ var deadCodeProgs = []Prog{
 	{"ret-in-loop", `f := func(x) { for i := 0; i < 3; i++ { if i == x { return i; i = 9 }; continue; x = 0 }; return -1 }; out := f(a)`, false},
 	{"ret-before-loop-head", `f := func(x) { if c { return 5 }; for x > 0 { x--; if x == b { break; x = 7 } }; return x }; out := f(a)`, true},
 	{"ret-logical", `f := func(x) { return x > 0 && b > 0; return false }; g := func(x) { return x > 0 || c; x = 1 }; out := f(a); o2 := g(a)`, false},
+	{"dead-before-oror", `f := func(x) { if x == b { return 0; x = 9 }; y := x || 7; z := x && 8; return [y, z] }; out := f(a)`, false},
+	{"dead-before-ternary", `f := func(x) { for x > 100 { return 1; x = 0 }; return x > b ? (x || 1) : (x && 2) }; out := f(a)`, false},
+	{"dead-in-else-oror", `f := func(x) { if c { return 0 } else { x += 1 }; return x || b }; out := f(a)`, false},
 	{"ret-ternary", `f := func(x) { return x > b ? 1 : 2; return 3 }; out := f(a)`, false},
 	{"jump-to-end", `f := func(x) { if x > b { x = 1 } }; g := func(x) { for x > 0 { x-- } }; out := f(a); o2 := g(b)`, true},
 	{"nested-dead", `f := func(x) { g := func(y) { return y; y++ }; return g(x) + 1; g = undefined }; out := f(a)`, false},
